@@ -32,7 +32,9 @@ Definition nst_eqb (a b : nstatus) : bool :=
 Definition tbl_of (l : list (nat * nat)) : table := map (fun p => mkNode (nst_of (fst p)) (snd p)) l.
 Definition hint (h : nat) : list bool := match h with 0 => [false] | 1 => [true] | _ => [false; true] end.
 
-Definition snapc := (nat * (nat * nat) * list (nat * nat))%type.
+(* (overall, (cancel-flag hint, lastError hint), node table as (status, retry count), pins);  pins: for each node, true = the
+   executor's ground truth says the node held this status for a while when the snapshot was taken (no in-flight transition) *)
+Definition snapc := (nat * (nat * nat) * list (nat * nat) * list bool)%type.
 Definition livec := (nat * list (nat * nat))%type.
 Definition ccase := (nat * list (nat * snapc) * list livec)%type.
 
@@ -65,23 +67,24 @@ Definition preds (a : node) : list node :=
   | NRunning => [a; mkNode NNone 0]
   | _ => [a; mkNode NRunning 0; mkNode NNone 0]
   end.
-Fixpoint earlier (t : table) : list table :=
+Fixpoint earlier (t : table) (pins : list bool) : list table :=
   match t with
   | [] => [[]]
-  | a :: r => flat_map (fun r' => map (fun a' => a' :: r') (preds a)) (earlier r)
+  | a :: r => let here := match pins with true :: _ => [a] | _ => preds a end in
+              flat_map (fun r' => map (fun a' => a' :: r') here) (earlier r (tl pins))
   end.
 
 (* hc: the cancel flag (0 false, 1 true, 2 unknown).  he: lastError - 0 = as the model has it (set together with the first
    failed node), 2 = unknown (a stop request or a timeout may have set it; or it is being written this instant) *)
 Definition ov_allowed (fx started : bool) (s : snapc) : bool :=
-  let '(ov, (hc, he), t) := s in
+  let '(ov, (hc, he), t, pins) := s in
   existsb (fun t1 =>
     let errs := match he with 0 => [existsb (fun n => match nst n with NError => true | _ => false end) t1] | _ => [false; true] end in
     existsb (fun c => existsb (fun e =>
       ost_eqb (ov_of fx (mkSched t1 c e (if started then SLoop else SInit) 0 0)) (ost_of ov)) errs) (hint hc))
-  (earlier (tbl_of t)).
+  (earlier (tbl_of t) pins).
 
-Definition tbl_of_snapc (s : snapc) : table := tbl_of (snd s).
+Definition tbl_of_snapc (s : snapc) : table := tbl_of (snd (fst s)).
 
 Definition case_errors (fx : bool) (c : ccase) : list nat :=
   let '(n, ws, lives) := c in
@@ -95,7 +98,7 @@ Definition case_errors (fx : bool) (c : ccase) : list nat :=
                          (if forallb (fun w => ov_allowed fx true (snd w)) r then [] else [1])
             end in
   let e2 := match ws with
-            | (0, (0, _, t)) :: _ => if forallb (fun p => (fst p =? 0) && (snd p =? 0)) t && (length t =? n) then [] else [2]
+            | (0, (0, _, t, _)) :: _ => if forallb (fun p => (fst p =? 0) && (snd p =? 0)) t && (length t =? n) then [] else [2]
             | _ => [2]
             end in
   let e3 := if (length mains <=? 2) && (length fss <=? 1) then [] else [3] in
@@ -121,20 +124,25 @@ Definition mismatches (cs : list ccase) : list (nat * nat) := mism_from false 0 
 
 (* a run of the model, as a case: the lines its execution leaves in the file are accepted *)
 Example accept_model_run :
-  case_errors false (2, [(0, (0, (0, 0), [(0,0);(0,0)])); (1, (4, (0, 0), [(4,0);(0,0)])); (2, (1, (0, 0), [(4,0);(1,0)]));
-                         (1, (4, (0, 0), [(4,0);(4,0)])); (0, (4, (0, 0), [(4,0);(4,0)]))],
+  case_errors false (2, [(0, (0, (0, 0), [(0,0);(0,0)], [])); (1, (4, (0, 0), [(4,0);(0,0)], [])); (2, (1, (0, 0), [(4,0);(1,0)], []));
+                         (1, (4, (0, 0), [(4,0);(4,0)], [])); (0, (4, (0, 0), [(4,0);(4,0)], []))],
                      [(1, [(0,0);(0,0)]); (1, [(1,0);(0,0)]); (1, [(4,0);(1,0)])]) = [].
 Proof. vm_compute. reflexivity. Qed.
 
 (* a torn snapshot (overall read between two steps, table copied after the next launch) is a model behaviour *)
 Example accept_torn :
-  case_errors false (2, [(0, (0, (0, 0), [(0,0);(0,0)])); (1, (4, (0, 0), [(4,0);(1,0)]))], []) = [].
+  case_errors false (2, [(0, (0, (0, 0), [(0,0);(0,0)], [])); (1, (4, (0, 0), [(4,0);(1,0)], []))], []) = [].
+Proof. vm_compute. reflexivity. Qed.
+
+(* ... but not when the executor knows that the second step had been running for a while *)
+Example reject_torn_when_pinned :
+  case_errors false (2, [(0, (0, (0, 0), [(0,0);(0,0)], [])); (1, (4, (0, 0), [(4,0);(1,0)], [true; true]))], []) = [1].
 Proof. vm_compute. reflexivity. Qed.
 
 (* and deviations are not: an overall status that is not Scheduler.Status of the table; a snapshot going backwards *)
 Example reject_wrong_overall :
-  case_errors false (1, [(0, (0, (0, 0), [(0,0)])); (1, (2, (0, 0), [(4,0)]))], []) = [1].
+  case_errors false (1, [(0, (0, (0, 0), [(0,0)], [])); (1, (2, (0, 0), [(4,0)], []))], []) = [1].
 Proof. vm_compute. reflexivity. Qed.
 Example reject_backwards :
-  case_errors false (1, [(0, (0, (0, 0), [(0,0)])); (1, (4, (0, 0), [(4,0)])); (1, (1, (0, 0), [(1,0)]))], []) = [4].
+  case_errors false (1, [(0, (0, (0, 0), [(0,0)], [])); (1, (4, (0, 0), [(4,0)], [])); (1, (1, (0, 0), [(1,0)], []))], []) = [4].
 Proof. vm_compute. reflexivity. Qed.
